@@ -7,7 +7,7 @@ use super::sendbody::{send_body_call, send_body_flow};
 use crate::engine::{guarded, pattern, Report, Tier, Violation};
 use crate::refmodel::chunked::decode_strict;
 
-pub const RULE: &str = "chunked: every output length b in 6..=11000 and +-12 around k*10248 (k<=3) x input lengths {1..=64 (thorough 1..=320), 100, 255..257, 1000, 4095..4097, 10239..10241, 20480, 20481, 30000} u {b-6..=b+2}, each pair one real write on a fresh writer (front ends: Flow of a POST, Call, Flow of a DELETE with send-body-despite-method); the same rows for b in 6..=64 u {100,1000,4103,10248,10253} from non-initial states: after an earlier write of {1,3} bytes into a buffer of 0..=12 bytes in the same state, and after two superfluous head writes (buffers {0,4,5,6,4096}) in the state before, for an HTTP/1.0 GET converted with send-body-despite-method, after an Expect handshake whose look returned an error, and for a request with two Transfer-Encoding lines next to a Content-Length; sized: b,i in 1..=300 (a reduced buffer set also after a refused oversize direct-write report, after a refused oversize write, and on a flow obtained through a redirect whose original declared a smaller length), plus fixed-buffer loops with Content-Length around 2^32, 2^33, 2^40, u64::MAX; plus whole-body caller loops with a fixed buffer. distinct = distinct (mode, consumed==input, chunks emitted, hex digits) classes";
+pub const RULE: &str = "chunked: every output length b in 6..=11000 and +-12 around k*10248 (k<=3) x input lengths {1..=64 (thorough 1..=320), 100, 255..257, 1000, 4095..4097, 10239..10241, 20480, 20481, 30000} u {b-6..=b+2}, each pair one real write on a fresh writer (front ends: Flow of a POST, Call, Flow of a DELETE with send-body-despite-method); the same rows for b in 6..=64 u {100,1000,4103,10248,10253} from non-initial states: after an earlier write of {1,3} bytes into a buffer of 0..=12 bytes in the same state, after two superfluous head writes (buffers {0,4,5,6,4096}) in the state before, after a direct-write report of zero bytes, after an end signal that did not fit (0 / 4 bytes of room), after giving up waiting for 100 Continue, for an HTTP/1.0 GET converted with send-body-despite-method, after an Expect handshake whose look returned an error, and for a request with two Transfer-Encoding lines next to a Content-Length; sized: b,i in 1..=300 (a reduced buffer set also after a refused oversize direct-write report, after a refused oversize write, and on a flow obtained through a redirect whose original declared a smaller length), plus fixed-buffer loops with Content-Length around 2^32, 2^33, 2^40, u64::MAX; plus whole-body caller loops with a fixed buffer. distinct = distinct (mode, consumed==input, chunks emitted, hex digits) classes";
 
 fn bs() -> Vec<usize> {
     let mut v: Vec<usize> = (6..=11000).collect();
@@ -49,6 +49,21 @@ fn write_once(i: usize, b: usize, front: &str, input: &[u8]) -> Result<(usize, S
             let mut f = send_body_flow(None);
             let mut out0 = vec![0u8; b0];
             let _ = f.write(&input[..i0], &mut out0);
+            f.write(&input[..i], &mut out)
+        } else if front == "flow+direct0" {
+            // a direct-write report of zero bytes (refused on a chunked body) must leave the writer alone
+            let mut f = send_body_flow(None);
+            let _ = f.consume_direct_write(0);
+            f.write(&input[..i], &mut out)
+        } else if let Some(h) = front.strip_prefix("flow+unfit-end:") {
+            // an end-of-body signal into a buffer too small for the terminator (nothing emitted, body not ended):
+            // the caller may still go on with content
+            let mut f = send_body_flow(None);
+            let mut out0 = vec![0u8; h.parse::<usize>().unwrap_or(0).min(4)];
+            let _ = f.write(&[], &mut out0);
+            f.write(&input[..i], &mut out)
+        } else if front == "flow-expect-gaveup" {
+            let mut f = super::sendbody::send_body_flow_expect_gaveup();
             f.write(&input[..i], &mut out)
         } else if let Some(h) = front.strip_prefix("flow+headwrites:") {
             // further SendRequest writes after the head was complete, before entering SendBody
@@ -312,6 +327,10 @@ pub fn run(tier: Tier) -> Report {
     let hist_fronts: Vec<String> = [1usize, 3].iter().flat_map(|i0| (0..=12usize).map(move |b0| format!("flow+prior:{}:{}", i0, b0))).chain([0usize, 4, 5, 6, 4096].iter().map(|b| format!("flow+headwrites:{}", b))).collect();
     let mut hist_fronts: Vec<&'static str> = hist_fronts.into_iter().map(|s| &*Box::leak(s.into_boxed_str())).collect();
     hist_fronts.push("flow-despite-http10");
+    hist_fronts.push("flow+direct0");
+    hist_fronts.push("flow+unfit-end:0");
+    hist_fronts.push("flow+unfit-end:4");
+    hist_fronts.push("flow-expect-gaveup");
     hist_fronts.push("flow-after-await100-error");
     hist_fronts.push("flow-two-te-lines+cl");
     for f in &hist_fronts {
@@ -416,7 +435,7 @@ pub fn run(tier: Tier) -> Report {
     }
     rep.sample(json!({"loop": {"body_len": 25000, "buffer_len": 10253, "chunked": true}}));
     rep.guard("some write consumes only part of its input", false);
-    rep.guard("rows from non-initial states evaluated", hist_fronts.len() == 34);
+    rep.guard("rows from non-initial states evaluated", hist_fronts.len() == 38);
     rep.extra("buffer_lengths", json!(bs.len()));
     rep.extra("loops", json!(loops.len()));
     rep
